@@ -21,6 +21,10 @@ pub struct UdpSocket { _s: u8 }
 impl UdpSocket {
     #[verifier::external_body]
     fn recv_from(&self, buf: &mut [u8], Tracked(vlog): Tracked<&mut AssocLog>) -> (r: Result<(usize, SocketAddr), IoError>)
+        requires
+            //#C02
+            // a datagram longer than the buffer is cut off silently by the socket: only a buffer that holds the largest UDP datagram (65535 bytes) receives every datagram whole
+            old(buf)@.len() >= 65535,
         ensures final(buf)@.len() == old(buf)@.len(),
             final(vlog).from_client == old(vlog).from_client, final(vlog).to_target == old(vlog).to_target, final(vlog).to_client == old(vlog).to_client,
             match r { Ok((n, a)) => n <= old(buf)@.len() && final(vlog).from_target == old(vlog).from_target.push((final(buf)@.take(n as int), a)), Err(_) => final(vlog).from_target == old(vlog).from_target },
